@@ -610,6 +610,17 @@ class StyleElement(TTMLElement):
 
     if issubclass(parent_ctx.ttml_class, RegionElement):
 
+      # styles referenced by the nested style element, with lower priority than its own
+      # attributes and later references overriding earlier ones
+
+      for style_ref in reversed(imsc_attr.StyleAttribute.extract(xml_elem)):
+        if style_ref not in style_ctx.style_elements:
+          LOGGER.error("non existant style id")
+          continue
+
+        for style_prop, value in style_ctx.style_elements[style_ref].styles.items():
+          style_ctx.styles.setdefault(style_prop, value)
+
       for style_prop, value in style_ctx.styles.items():
         region_style = parent_ctx.model_element.get_style(style_prop)
 
